@@ -47,6 +47,8 @@ def run(ctx) -> None:
         ctx.rule(rid, text)
     for m in ("itertools._Grouper.__anext__", "itertools.GroupBy.__anext__"):
         ctx.unit(m)
+    if not cursor_is_single_slot(ctx):
+        return
     N = Names(ctx)
     ctx.tables["derived attribute names"] = {k: (v if isinstance(v, (str, type(None))) else getattr(v, "short", str(v)))
                                              for k, v in vars(N).items()}
@@ -55,6 +57,54 @@ def run(ctx) -> None:
     r16_3_state(ctx, N)
     r16_4(ctx, N)
     r16_5(ctx, N)
+    # "with key absent the keys are the items themselves": the default key function is used as it is
+    from . import c03
+    ctx.rule("R16.7", "the default key function is an asynchronous library function used unwrapped: items are never probed or awaited (R03.9, shared)")
+    from .common import real_units
+    for u in real_units(ctx):
+        if u.module.short != "itertools" or not (u.cls is not None and u.cls.name in ("GroupBy", "_GroupByState", "_Grouper")):
+            continue
+        for n in cfg_of(u).nodes:
+            if n.kind == "call" and not n.tag and c03._is_awaitify(ctx.vals.expr(u, n.ast.func, n)):
+                ctx.count("groupby_awaitify_sites")
+                c03.awaitify_argument(ctx, "R16.7", u, n)
+
+
+def cursor_is_single_slot(ctx, rid: str = "R16.3") -> bool:
+    """The cursor holds at most one item: the state method that pulls the source *assigns* the item
+    to a field.  If it is instead added to a container of the state (``self.x.append(item)``) without
+    that container having been emptied on the same path, items accumulate: an item that was stepped
+    over (skipped) is still there when a later group asks.  Reported as a violation; the remaining
+    groupby rules need the single slot and are not evaluated then."""
+    sinfo = ctx.pkg.cls("itertools._GroupByState")
+    for m in sinfo.methods.values():
+        if m.kind != "coroutine":
+            continue
+        cfg = cfg_of(m)
+        for n in cfg.nodes:
+            if n.kind != "call" or n.tag or not isinstance(n.ast.func, ast.Attribute):
+                continue
+            f = n.ast.func
+            if f.attr not in ("append", "appendleft", "add", "insert", "extend") or not (
+                    isinstance(f.value, ast.Attribute) and norm(f.value.value) == "self"):
+                continue
+            kinds = set()
+            for a in n.ast.args:
+                kinds |= {x[0] for x in ctx.vals.expr(m, a, n)}
+            if not kinds & {"item", "usernext"}:
+                continue
+            fld = f.value.attr
+            emptied = [x for x in cfg.nodes if not x.tag and (
+                (x.kind == "call" and isinstance(x.ast.func, ast.Attribute) and x.ast.func.attr == "clear"
+                 and norm(x.ast.func.value) == f"self.{fld}")
+                or (x.kind == "store" and any(isinstance(t, ast.Attribute) and norm(t) == f"self.{fld}" for t in x.info.get("targets", []))))]
+            path = find_path(cfg.entry, lambda x, n=n: x is n, avoid=lambda x: x in emptied, edge_ok=lambda a, lab, b: lab not in ("e", "p"))
+            if path is not None:
+                ctx.fail(rid, m, n, f"the pulled item is added to the container `self.{fld}` without emptying it first: the cursor can "
+                         "hold more than one item, so an item that was stepped over is handed to a later group instead of being "
+                         "discarded", node=n)
+                return False
+    return True
 
 
 class Names:
@@ -330,9 +380,22 @@ def r16_2(ctx, N) -> None:
                   and n.in_loop()]
     no_target = [n for n in main if n.kind == "handler" and "AttributeError" in norm(n.info.get("type"))]
     # ``hasattr(state, "<target>")`` false: there is no previous group either
-    no_target += [s_ for n in main if n.kind == "branch" and isinstance(n.ast, ast.Call) and norm(n.ast.func) == "hasattr"
-                  and len(n.ast.args) == 2 and isinstance(n.ast.args[1], ast.Constant) and n.ast.args[1].value == N.target
-                  for (lab, s_) in n.succ if lab == "f"]
+    no_target_edges = {(n, "f") for n in main if n.kind == "branch" and isinstance(n.ast, ast.Call) and norm(n.ast.func) == "hasattr"
+                       and len(n.ast.args) == 2 and isinstance(n.ast.args[1], ast.Constant) and n.ast.args[1].value == N.target}
+
+    # ``prev = getattr(state, "<target>", DEFAULT)`` ... ``prev is DEFAULT``: there is no previous group either
+    from asl.flow import reaching
+    for n in main:
+        if n.kind != "branch" or not isinstance(n.ast, ast.Compare) or len(n.ast.ops) != 1 \
+                or not isinstance(n.ast.ops[0], (ast.Is, ast.IsNot)):
+            continue
+        sides = [n.ast.left, n.ast.comparators[0]]
+        for a_, b_ in (sides, sides[::-1]):
+            if not isinstance(a_, ast.Name):
+                continue
+            vals = [d.info.get("value") for d in reaching(cfg).defs_at(n, a_.id) if d.kind == "store"]
+            if vals and all(_getattr_target(v, N) and norm(v.args[2]) == norm(b_) for v in vals):
+                no_target_edges.add((n, "t" if isinstance(n.ast.ops[0], ast.Is) else "f"))
 
     def scan_exit(t) -> str:
         return "f" if isinstance(t.ast.ops[0], ast.Eq) else "t"
@@ -340,6 +403,7 @@ def r16_2(ctx, N) -> None:
     for ts in tstores:
         path = find_path(cfg.entry, lambda x: x is ts, avoid=lambda x: x in no_target,
                          edge_ok=lambda a, lab, b: lab not in ("p",) and (lab != "e" or a.kind == "attr")
+                         and (a, lab) not in no_target_edges
                          and not (a in scan_tests and lab == scan_exit(a)))
         ctx.check(path is None, "R16.3", u, ts, "a new group starts only after the scan found a key different from the "
                   "previous target key (or there is no previous group): the unread rest of a partly consumed run is "
@@ -366,9 +430,15 @@ def _reads_target(ctx, u, cfg, loop: ast.While, N) -> bool:
             from asl.flow import reaching
             defs = reaching(cfg).defs_at(node, side.id)
             vals = [d.info.get("value") for d in defs if d.kind == "store"]
-            if vals and all(isinstance(v, ast.Attribute) and v.attr == N.target for v in vals):
+            if vals and all((isinstance(v, ast.Attribute) and v.attr == N.target) or _getattr_target(v, N) for v in vals):
                 return True
     return False
+
+
+def _getattr_target(v, N) -> bool:
+    """``getattr(state, "<target field>", <default>)``"""
+    return isinstance(v, ast.Call) and norm(v.func) == "getattr" and len(v.args) == 3 \
+        and isinstance(v.args[1], ast.Constant) and v.args[1].value == N.target
 
 
 def r16_3_state(ctx, N) -> None:
@@ -472,7 +542,8 @@ def r16_4(ctx, N) -> None:
                         ctx.check(all(isinstance(o, (ast.Eq, ast.NotEq)) for o in c.ops), "R16.4", m, c,
                                   "user keys are compared by equality only (like itertools.groupby)", node=n)
                     elif any(isinstance(o, (ast.Is, ast.IsNot)) for o in c.ops):
-                        ok = any(norm(o) in ("self", "None") or f".{N.sentinel}" in norm(o) for o in operands)
+                        ok = any(norm(o) in ("self", "None") or f".{N.sentinel}" in norm(o)
+                                 or {a[0] for a in ctx.vals.expr(m, o, n)} == {"sentinel"} for o in operands)
                         ctx.check(ok, "R16.4", m, c, "identity tests involve only library objects (self, None, sentinel, groups)",
                                   node=n)
 
